@@ -102,6 +102,17 @@ class GenList(list):
     pending: Optional['Raised'] = None
 
 
+def _consuming(it: 'GenList'):
+    """Take the values of an iterator one by one: what a loop leaves behind (break) stays in it."""
+    while it:
+        yield it.pop(0)
+
+
+def _lazy(items) -> 'GenList':
+    g = GenList(items)
+    return g
+
+
 class _Yield(Exception):
     pass
 
@@ -120,7 +131,7 @@ class FuncRef:
         self.fn, self.self_val, self.closure = fn, self_val, closure
 
 
-BUILTIN_NAMES = {'abs', 'set', 'dict', 'list', 'tuple', 'frozenset', 'sorted', 'len', 'isinstance', 'any', 'all', 'bool', 'str', 'int',
+BUILTIN_NAMES = {'getattr', 'hasattr', 'abs', 'set', 'dict', 'list', 'tuple', 'frozenset', 'sorted', 'len', 'isinstance', 'any', 'all', 'bool', 'str', 'int',
                  'enumerate', 'zip', 'range', 'print', 'repr', 'min', 'max', 'sum', 'type', 'reversed', 'iter', 'next', 'map',
                  'filter', 'object', 'TypeError', 'ValueError', 'KeyError', 'IndexError', 'NotImplementedError', 'Exception',
                  'AttributeError', 'RuntimeError', 'AssertionError', 'StopIteration'}
@@ -148,6 +159,10 @@ class Interp:
 
     def is_record(self, c: ClassInfo) -> bool:
         return c.is_dataclass or any(str(b).split('.')[-1] == 'NamedTuple' for b in c.bases)
+
+    def _is_namedtuple(self, c: ClassInfo) -> bool:
+        return any(str(b).split('.')[-1] == 'NamedTuple' for a in [c] + [x for x in self.prog.ancestors(c) if isinstance(x, ClassInfo)]
+                   for b in a.bases)
 
     def exc_name(self, v: Any) -> str:
         if isinstance(v, Obj):
@@ -309,7 +324,7 @@ class Interp:
             broke = False
             src_ = self.eval(s.iter, env, fn, depth)
             pending_ = src_.pending if isinstance(src_, GenList) else None
-            for item in (list(src_) if isinstance(src_, GenList) else self.iterate(src_)):
+            for item in (_consuming(src_) if isinstance(src_, GenList) else self.iterate(src_)):
                 self.assign(s.target, item, env, fn, depth)
                 try:
                     self.exec_block(s.body, env, fn, depth)
@@ -448,6 +463,8 @@ class Interp:
 
     # -- values --------------------------------------------------------------------------------------------------------------
     def truth(self, v: Any) -> bool:
+        if isinstance(v, GenList):
+            return True             # an iterator object, whatever is left in it
         if v is None or isinstance(v, (bool, int, str, list, tuple, set, frozenset, dict)):
             return bool(v)
         if isinstance(v, (Atom, EnumV, ClassRef, FuncRef)):
@@ -467,9 +484,11 @@ class Interp:
 
     def iterate(self, v: Any) -> List[Any]:
         if isinstance(v, GenList):
+            out_ = list(v)
+            del v[:]                     # an iterator is consumed by whoever drains it
             if v.pending is not None:
                 raise v.pending          # the consumer drains the generator: it reaches the failing step
-            return list(v)
+            return out_
         if isinstance(v, Marker):
             raise Undecided('iteration over a function / module value')
         if isinstance(v, (list, tuple, set, frozenset)):
@@ -614,7 +633,8 @@ class Interp:
             return self.global_name(fn.module, e.id, fn, depth)
         if isinstance(e, ast.Attribute):
             sym = prog.resolve_expr_symbol(fn.module, e)
-            if sym is not None and not (isinstance(e.value, ast.Name) and e.value.id in env):
+            if sym is not None and not (isinstance(e.value, ast.Name) and e.value.id in env) and \
+                    not (isinstance(sym, FuncInfo) and sym.cls is not None):       # a method: bound through getattr (classmethods get the class)
                 v = self.from_symbol(sym, e.attr, fn, depth)
                 if v is not NotImplemented:
                     return v
@@ -720,7 +740,7 @@ class Interp:
                 for x in out:
                     self._hashable(x)
                 return set(out)
-            return out
+            return _lazy(out) if isinstance(e, ast.GeneratorExp) else out
         if isinstance(e, ast.Subscript):
             c = self.eval(e.value, env, fn, depth)
             if isinstance(e.slice, ast.Slice):
@@ -837,6 +857,10 @@ class Interp:
                 return v
             if attr == '__class__':
                 return ClassRef(base.cls)
+            if self._is_namedtuple(base.cls) and attr in ('_replace', '_asdict'):
+                return Marker(('method', base, attr))
+            if self._is_namedtuple(base.cls) and attr == '_fields':
+                return tuple(self.prog.class_fields(base.cls))
             if attr.startswith('__') and attr.endswith('__'):
                 raise Undecided(f'special attribute {attr}')
             raise Raised('AttributeError', f'{base.cls.name}.{attr}')
@@ -955,7 +979,10 @@ class Interp:
         if isinstance(callee, tuple) and callee and callee[0] == 'ext':
             if callee[1] in ('copy.deepcopy', 'copy.copy') and len(args) == 1:
                 return self._copy(args[0], deep=callee[1].endswith('deepcopy'))
-            return self.library(callee[1], args, kwargs, fn, depth)
+            res_ = self.library(callee[1], args, kwargs, fn, depth)
+            if callee[1].startswith('itertools.') and type(res_) is list:
+                res_ = _lazy(res_)       # the itertools functions hand out iterators
+            return res_
         if isinstance(callee, tuple) and callee and callee[0] == 'ext-bound':
             if len(args) == 1 and isinstance(args[0], str) and not kwargs:
                 return getattr(callee[1], callee[2])(args[0])
@@ -970,6 +997,8 @@ class Interp:
         """Pure standard-library functions on concrete small values."""
         import re as _re
         import itertools as _it
+        if name == 'types.MappingProxyType' and len(args) == 1 and isinstance(args[0], dict) and not kwargs:
+            return args[0]          # a read-only view of that dict (a write through the view is not modelled: no such method is)
         if name in ('re.match', 're.fullmatch', 're.search') and len(args) == 2 and not kwargs:
             if isinstance(args[0], str) and isinstance(args[1], str):
                 try:
@@ -1107,10 +1136,10 @@ class Interp:
             except Exception:       # pylint: disable=broad-except
                 raise Undecided('sorted')
         if name == 'reversed' and len(args) == 1:
-            return list(reversed(self.iterate(args[0])))
+            return _lazy(reversed(self.iterate(args[0])))
         if name in ('any', 'all') and len(args) == 1:
             src_ = args[0]
-            for x in (list(src_) if isinstance(src_, GenList) else self.iterate(src_)):
+            for x in (_consuming(src_) if isinstance(src_, GenList) else self.iterate(src_)):
                 t_ = self.truth(x)
                 if name == 'any' and t_:
                     return True
@@ -1124,9 +1153,9 @@ class Interp:
         if name in ('str', 'repr'):
             return self.text(args[0]) if args else ''
         if name == 'enumerate' and len(args) == 1:
-            return [(i, x) for i, x in enumerate(self.iterate(args[0]))]
+            return _lazy((i, x) for i, x in enumerate(self.iterate(args[0])))
         if name == 'zip':
-            return [tuple(t) for t in zip(*[self.iterate(a) for a in args])]
+            return _lazy(tuple(t) for t in zip(*[self.iterate(a) for a in args]))
         if name == 'range' and all(isinstance(a, int) for a in args):
             return list(range(*args))
         if name == 'print':
@@ -1134,20 +1163,32 @@ class Interp:
         if name == 'next' and args:
             if isinstance(args[0], GenList):
                 if len(args[0]):
-                    return args[0][0]
+                    return args[0].pop(0)
                 if args[0].pending is not None:
                     raise args[0].pending
                 if len(args) > 1:
                     return args[1]
                 raise Raised('StopIteration')
-            items = self.iterate(args[0])
-            if items:
-                return items[0]
-            if len(args) > 1:
-                return args[1]
-            raise Raised('StopIteration')
+            if isinstance(args[0], (list, tuple, set, frozenset, dict, str)) or args[0] is None or isinstance(args[0], (int, Atom, EnumV)):
+                raise Raised('TypeError', 'next() of something that is no iterator')
+            raise Undecided('next()')
+        if name == 'getattr' and len(args) in (2, 3) and isinstance(args[1], str) and not kwargs:
+            try:
+                return self.getattr(args[0], args[1], fn, depth)
+            except Raised as exc_:
+                if exc_.name == 'AttributeError' and len(args) == 3:
+                    return args[2]
+                raise
+        if name == 'hasattr' and len(args) == 2 and isinstance(args[1], str) and not kwargs:
+            try:
+                self.getattr(args[0], args[1], fn, depth)
+                return True
+            except Raised as exc_:
+                if exc_.name == 'AttributeError':
+                    return False
+                raise
         if name == 'iter' and len(args) == 1:
-            return self.iterate(args[0])
+            return args[0] if isinstance(args[0], GenList) else _lazy(self.iterate(args[0]))
         if name == 'type' and len(args) == 1:
             if isinstance(args[0], Obj):
                 return ClassRef(args[0].cls)
@@ -1159,8 +1200,8 @@ class Interp:
         if name in ('map', 'filter') and len(args) == 2:
             items = self.iterate(args[1])
             if name == 'map':
-                return [self.apply(args[0], [x], {}, None, fn, depth + 1) for x in items]
-            return [x for x in items if self.truth(self.apply(args[0], [x], {}, None, fn, depth + 1) if args[0] is not None else x)]
+                return _lazy(self.apply(args[0], [x], {}, None, fn, depth + 1) for x in items)
+            return _lazy(x for x in items if self.truth(self.apply(args[0], [x], {}, None, fn, depth + 1) if args[0] is not None else x))
         if name in ('min', 'max') and args and not set(kwargs) - {'default'}:
             items = self.iterate(args[0]) if len(args) == 1 else list(args)
             if all(isinstance(x, int) for x in items) or all(isinstance(x, str) for x in items):
@@ -1187,6 +1228,15 @@ class Interp:
         raise Undecided(f'builtin {name}')
 
     def method(self, recv: Any, name: str, args: List[Any], kwargs: Dict[str, Any], fn: FuncInfo, depth: int) -> Any:
+        if isinstance(recv, Obj):
+            if name == '_replace' and not args:
+                unknown = [k for k in kwargs if k not in recv.fields]
+                if unknown:
+                    raise Raised('ValueError', f'_replace: unexpected field names {unknown}')
+                return Obj(recv.cls, {**recv.fields, **kwargs})
+            if name == '_asdict' and not args and not kwargs:
+                return dict(recv.fields)
+            raise Undecided(f'record method {name}')
         if isinstance(recv, dict):
             if name == 'get' and 1 <= len(args) <= 2:
                 self._hashable(args[0])
